@@ -242,7 +242,22 @@ def run_case(w, prog, db, dbname, dialect, src=None, want_rq=True, user_names=No
         d = model.compare(m, rows)
         if d:
             prop = "C03" if d[0] == "order_diff" else "C01"
-            o.symptoms.append((prop, d[0], d[1]))
+            sym = d[0]
+            # root-cause tag: does the statement refer to a column by a name that the relation it is taken
+            # from exposes twice (SELECT a.*, b.* in a sub-query, a carried sort key next to a same-named
+            # column)?  Engines then take the first such column (or reject the statement): one defect family,
+            # whatever the shape of the pipeline that produced it
+            try:
+                pr = w.call({"op": "sqlparse", "dialect": "sqlite", "sql": o.sql, "ast": True})
+                if pr.get("ok"):
+                    from .mon import sqlscope
+                    amb = sqlscope.bind(pr["ast"], {t: list(dd["cols"]) for t, dd in db.items()}).get("ambiguous") or []
+                    if amb:
+                        sym += "+ambiguous_ref"
+                        o.obs["ambiguous_ref"] = amb[0]
+            except Exception:
+                pass
+            o.symptoms.append((prop, sym, d[1]))
         elif m.okeys is not None and len(set(m.okeys)) > 1 and not outer_order_by(o.sql):
             o.symptoms.append(("C03", "order_not_enforced", "model result is ordered with %d distinct keys but outermost SELECT has no ORDER BY" % len(set(m.okeys))))
         elif m.okeys is None and m.pokeys is not None and len(set(k for k in m.pokeys if k is not None)) > 1 and not outer_order_by(o.sql):
